@@ -435,7 +435,7 @@ class Gen:
             cands = self.live(w)
             if not cands:
                 return None
-            t = r.choice(cands)
+            t = self.pick(cands) if r.random() < 0.6 else r.choice(cands)
             en = r.choice(self.entries_for(w, t))
             st["entry"] = en
             st["targets"] = [w.sid(t)]
@@ -783,7 +783,7 @@ class Gen:
             e = E[i0]
             fs, ps_ = sid(e.fock), sid(e.polarization)
             d = dims_of(e.fock)
-            if self.joint_dim(w) // max(d, 1) * (d + 3) <= self.CAP:
+            if self.joint_dim(w) // max(d, 1) * (d + 5) <= self.CAP:
                 g_ = r.choice([1, 2, 3])
                 out.append({"kind": "resize", "targets": [fs], "entry": "state", "dim": d + g_})
                 out.append({"kind": "struct", "what": "env_combine", "env": i0})
@@ -793,7 +793,7 @@ class Gen:
                     out.append({"kind": "struct", "what": "set_contraction", "on": False})
                     out.append({"kind": "struct", "what": "expand", "entry": "env", "targets": [fs]})
                 # shrink, keep (a request for the current size), or grow
-                out.append({"kind": "resize", "targets": [fs], "entry": r.choice(["env", "env", "state"]), "dim": d + g_ + r.choice([-2, -1, 0, 0, 1])})
+                out.append({"kind": "resize", "targets": [fs], "entry": r.choice(["env", "env", "state"]), "dim": d + g_ + r.choice([-2, -1, 0, 1, 1, 2])})
         elif f == "C10":
             # repeated displacements along one (complex) direction: the state is a superposition when
             # the cutoff for the second one is estimated
